@@ -414,6 +414,237 @@ def parseExpr (ts : List Tok) : Option PE :=
   | some (e, []) => some e
   | _ => none
 
+/-! ### statements (§12) -/
+
+mutual
+  inductive PS where
+    /-- ExpressionStatement `e;` -/
+    | expr (e : PE)
+    /-- VariableStatement `var x = e, …;` (every declaration with its initialiser) -/
+    | var (ds : List (Bytes × PE))
+    /-- `if (c) t` -/
+    | ifS (c : PE) (t : PS)
+    /-- `if (c) t else e` -/
+    | ifElse (c : PE) (t e : PS)
+    /-- Block `{ … }` -/
+    | block (ss : PStmts)
+    /-- `for (var ds; test; u1, u2, …) body` -/
+    | forVar (ds : List (Bytes × PE)) (test : PE) (upd : List PE) (body : PS)
+    /-- `switch (e) { clauses }` -/
+    | switchS (e : PE) (cs : PClauses)
+    /-- `return e;` -/
+    | ret (e : PE)
+    /-- `break;` -/
+    | brk
+  inductive PStmts where
+    | nil
+    | cons (s : PS) (rest : PStmts)
+  inductive PClauses where
+    | nil
+    /-- `case e: stmts` -/
+    | case (e : PE) (body : PStmts) (rest : PClauses)
+    /-- `default: stmts` -/
+    | dflt (body : PStmts) (rest : PClauses)
+end
+
+instance : Inhabited PS := ⟨.brk⟩
+
+/-- an AssignmentExpression at the head of the tokens -/
+def exprP (ts : List Tok) : Option (PE × List Tok) := assignN ts.length ts.length ts
+
+/-- VariableDeclarationList: `x = e , y = e …` -/
+def declsLoop : Nat → P (List (Bytes × PE))
+  | 0, _ => none
+  | k + 1, ts =>
+    match ts with
+    | .id x :: r0 =>
+      if isReserved x then none
+      else
+        (match eat b!"=" r0 with
+          | none => none
+          | some r1 =>
+            match exprP r1 with
+            | none => none
+            | some (e, r2) =>
+              match eat b!"," r2 with
+              | none => some ([(x, e)], r2)
+              | some r3 =>
+                match declsLoop k r3 with
+                | some (ds, r4) => some ((x, e) :: ds, r4)
+                | none => none)
+    | _ => none
+
+/-- Expression: `e , e …` -/
+def exprsLoop : Nat → P (List PE)
+  | 0, _ => none
+  | k + 1, ts =>
+    match exprP ts with
+    | none => none
+    | some (e, r) =>
+      match eat b!"," r with
+      | none => some ([e], r)
+      | some r1 =>
+        match exprsLoop k r1 with
+        | some (es, r2) => some (e :: es, r2)
+        | none => none
+
+/-- where a StatementList ends: at the end of the text, before `}`, `case`, `default` -/
+def stmtsEnd : List Tok → Bool
+  | [] => true
+  | .p s :: _ => s == b!"}"
+  | .id s :: _ => s == b!"case" || s == b!"default"
+  | _ => false
+
+mutual
+  /-- §12 Statement -/
+  def stmtN : Nat → P PS
+    | 0, _ => none
+    | n + 1, ts =>
+      match eat b!"{" ts with
+      | some r =>
+        (match stmtsN n r with
+          | some (ss, r1) => (match eat b!"}" r1 with | some r2 => some (.block ss, r2) | none => none)
+          | none => none)
+      | none =>
+      match eatId b!"var" ts with
+      | some r =>
+        (match declsLoop r.length r with
+          | some (ds, r1) => (match eat b!";" r1 with | some r2 => some (.var ds, r2) | none => none)
+          | none => none)
+      | none =>
+      match eatId b!"if" ts with
+      | some r =>
+        (match eat b!"(" r with
+          | none => none
+          | some r1 =>
+            match exprP r1 with
+            | none => none
+            | some (c, r2) =>
+              match eat b!")" r2 with
+              | none => none
+              | some r3 =>
+                match stmtN n r3 with
+                | none => none
+                | some (t, r4) =>
+                  match eatId b!"else" r4 with
+                  | none => some (.ifS c t, r4)
+                  | some r5 =>
+                    match stmtN n r5 with
+                    | some (e, r6) => some (.ifElse c t e, r6)
+                    | none => none)
+      | none =>
+      match eatId b!"for" ts with
+      | some r =>
+        (match eat b!"(" r with
+          | none => none
+          | some r1 =>
+            match eatId b!"var" r1 with
+            | none => none
+            | some r2 =>
+              match declsLoop r2.length r2 with
+              | none => none
+              | some (ds, r3) =>
+                match eat b!";" r3 with
+                | none => none
+                | some r4 =>
+                  match exprP r4 with
+                  | none => none
+                  | some (test, r5) =>
+                    match eat b!";" r5 with
+                    | none => none
+                    | some r6 =>
+                      match exprsLoop r6.length r6 with
+                      | none => none
+                      | some (upd, r7) =>
+                        match eat b!")" r7 with
+                        | none => none
+                        | some r8 =>
+                          match stmtN n r8 with
+                          | some (body, r9) => some (.forVar ds test upd body, r9)
+                          | none => none)
+      | none =>
+      match eatId b!"switch" ts with
+      | some r =>
+        (match eat b!"(" r with
+          | none => none
+          | some r1 =>
+            match exprP r1 with
+            | none => none
+            | some (e, r2) =>
+              match eat b!")" r2 with
+              | none => none
+              | some r3 =>
+                match eat b!"{" r3 with
+                | none => none
+                | some r4 =>
+                  match clausesN n r4 with
+                  | none => none
+                  | some (cs, r5) => (match eat b!"}" r5 with | some r6 => some (.switchS e cs, r6) | none => none))
+      | none =>
+      match eatId b!"return" ts with
+      | some r =>
+        (match exprP r with
+          | some (e, r1) => (match eat b!";" r1 with | some r2 => some (.ret e, r2) | none => none)
+          | none => none)
+      | none =>
+      match eatId b!"break" ts with
+      | some r => (match eat b!";" r with | some r1 => some (.brk, r1) | none => none)
+      | none =>
+        -- ExpressionStatement (it cannot begin with `{`; `function` and the other keywords are no expressions)
+        (match exprP ts with
+          | some (e, r) => (match eat b!";" r with | some r1 => some (.expr e, r1) | none => none)
+          | none => none)
+  /-- StatementList, up to `}` / `case` / `default` / the end -/
+  def stmtsN : Nat → P PStmts
+    | 0, _ => none
+    | n + 1, ts =>
+      if stmtsEnd ts then some (.nil, ts)
+      else
+        match stmtN n ts with
+        | none => none
+        | some (s, r) =>
+          match stmtsN n r with
+          | some (ss, r1) => some (.cons s ss, r1)
+          | none => none
+  /-- CaseClauses with a DefaultClause anywhere, up to `}` -/
+  def clausesN : Nat → P PClauses
+    | 0, _ => none
+    | n + 1, ts =>
+      match eatId b!"case" ts with
+      | some r =>
+        (match exprP r with
+          | none => none
+          | some (e, r1) =>
+            match eat b!":" r1 with
+            | none => none
+            | some r2 =>
+              match stmtsN n r2 with
+              | none => none
+              | some (body, r3) =>
+                match clausesN n r3 with
+                | some (cs, r4) => some (.case e body cs, r4)
+                | none => none)
+      | none =>
+      match eatId b!"default" ts with
+      | some r =>
+        (match eat b!":" r with
+          | none => none
+          | some r1 =>
+            match stmtsN n r1 with
+            | none => none
+            | some (body, r2) =>
+              match clausesN n r2 with
+              | some (cs, r3) => some (.dflt body cs, r3)
+              | none => none)
+      | none => some (.nil, ts)
+end
+
+/-- a statement list: the whole token list -/
+def parseStmts (ts : List Tok) : Option PStmts :=
+  match stmtsN (ts.length + 2) ts with
+  | some (ss, []) => some ss
+  | _ => none
+
 /-! ## 3. reading the tree as a `JsExpr` -/
 
 open SoyVerif.Spec.JsSemRef (JsExpr Fn1 Fn2)
